@@ -460,13 +460,25 @@ def run_case(case, obs):
         class UserError(RuntimeError):
             pass
 
+        class SimulatorCrash(Exception):
+            pass
+
         for i in range(min(Ncalls, KMAX[obs.tier])):
-            err = UserError(f"user failure at evaluator call {i}")
+            err = [UserError, ValueError, SimulatorCrash, KeyError, OSError, ZeroDivisionError, AssertionError][(i + case["i"]) % 7](f"user failure at evaluator call {i}")
             run = execute(method, spec, tspec, raise_at={i: err})
             obs.count("user_exception_runs")
             obs.nontrivial(case["i"], "exc", i)
             if run.exc is not err:
-                obs.violation("user_exception_swallowed_or_replaced", call=i, method=method, escaped=repr(run.exc), code=None if run.code is None else int(run.code))
+                # a back-end may wrap what its callables raise (SciPy's differential_evolution turns TypeError/ValueError into a
+                # RuntimeError "from" the original): not swallowed as long as the user's exception is in the chain of causes
+                chain, cur = [], run.exc
+                while cur is not None and len(chain) < 10:
+                    chain.append(cur)
+                    cur = cur.__cause__ or cur.__context__
+                if any(c is err for c in chain):
+                    obs.count("user_exception_wrapped_by_the_back_end")
+                else:
+                    obs.violation("user_exception_swallowed_or_replaced", call=i, method=method, escaped=repr(run.exc), code=None if run.code is None else int(run.code))
     obs.sample({"method": method, "R": spec["R"], "P": spec["P"], "filters": spec.get("filters"), "estimators": spec.get("estimators"), "transforms": tspec,
                 "rmin": spec["rmin"], "pmin": spec["pmin"], "baseline_evaluator_calls": Ncalls, "fault_kind": case["kind"]})
 
